@@ -893,6 +893,7 @@ ssize_t getdelim(char**, size_t*, int, FILE*);
 
 #define GD_E_SCALAR_CODE        1
 #define GD_E_SCALAR_TYPE        2
+#define GD_E_SCALAR_RANGE       3
 
 #define GD_E_REFERENCE_CODE     1
 #define GD_E_REFERENCE_TYPE     2
